@@ -31,8 +31,21 @@ package grpc
 //	legitimately sees [IDLE, SHUTDOWN]; that one shape is reported as [SHUTDOWN] (same final
 //	state) so that the observation does not depend on the mutex hand-off.  In any other state
 //	[9] is a plain SubConn.Shutdown().
+//	[12] the server sends GOAWAY on every connection it has (ServerTransport.Drain)
 //	obs [n, the n states the LB policy's StateListener received during the op, ac.state,
-//	     ClientConn.GetState()]
+//	     ClientConn.GetState(), phase of the health checker goroutine]
+//
+// cfg [1,h]: as [1]; with h=1 client-side health checking is on for the sub-channel: the
+// service config carries a healthCheckConfig, the LB policy creates the SubConn with
+// HealthCheckEnabled, and internal.HealthCheckFunc is vConnStateHealthCheck, a transcription of
+// health/client.go clientHealthCheck (package grpc cannot import grpc/health: import cycle)
+// whose stream is scripted: the real addrConn.startHealthCheck starts it and every report goes
+// through the real setConnectivityState closure.
+//
+//	[10,k] the checker's Watch stream yields 1 SERVING, 0 NOT_SERVING, 2 an error other than
+//	Unimplemented, 3 Unimplemented (ignored unless the checker waits on its stream)
+//	[11] the checker's retry back-off ends (ignored unless it is backing off)
+//	health checker phase: 0 not running, 1 waiting on its stream, 2 in its back-off
 
 import (
 	"context"
@@ -50,12 +63,15 @@ import (
 	"google.golang.org/grpc/backoff"
 	"google.golang.org/grpc/balancer"
 	"google.golang.org/grpc/balancer/base"
+	"google.golang.org/grpc/codes"
 	"google.golang.org/grpc/connectivity"
 	"google.golang.org/grpc/credentials/insecure"
+	"google.golang.org/grpc/internal"
 	"google.golang.org/grpc/internal/channelz"
 	"google.golang.org/grpc/resolver"
 	"google.golang.org/grpc/resolver/manual"
 	"google.golang.org/grpc/serviceconfig"
+	"google.golang.org/grpc/status"
 )
 
 var vConnStateT *testing.T
@@ -146,6 +162,72 @@ type vConnStateEnv struct {
 	parked    int
 	srvConns  []net.Conn
 	lis       *vConnStateLis
+	health    bool
+	hph       int64      // phase of the newest health checker goroutine
+	hgen      int        // number of health checker goroutines started
+	hevCh     chan int64 // scripted events of the Watch stream
+	hboCh     chan struct{}
+}
+
+// vConnStateHealthCheck is clientHealthCheck (health/client.go) with the Watch stream replaced
+// by scripted events: same loop, same calls of setConnectivityState in the same places.  A
+// cancelled context ends RecvMsg with an error, which - as in the original - is reported as
+// TRANSIENT_FAILURE (the real setConnectivityState must drop that report) before the loop ends.
+func vConnStateHealthCheck(ctx context.Context, _ func(string) (any, error), set func(connectivity.State, error), _ string) error {
+	env := vConnStateCur
+	env.mu.Lock()
+	env.hgen++
+	gen := env.hgen
+	env.mu.Unlock()
+	ph := func(p int64) {
+		env.mu.Lock()
+		if env.hgen == gen {
+			env.hph = p
+		}
+		env.mu.Unlock()
+	}
+	defer ph(0)
+	tryCnt := 0
+	for {
+		if tryCnt > 0 { // backoffFunc(ctx, tryCnt-1)
+			ph(2)
+			select {
+			case <-env.hboCh:
+			case <-ctx.Done():
+				return nil
+			}
+		}
+		tryCnt++
+		if ctx.Err() != nil {
+			return nil
+		}
+		set(connectivity.Connecting, nil)
+		// newStream + SendMsg + CloseSend: the scripted stream is open
+		ph(1)
+	recv:
+		for {
+			var ev int64
+			select { // s.RecvMsg(resp)
+			case ev = <-env.hevCh:
+			case <-ctx.Done():
+				ev = 2
+			}
+			switch ev {
+			case 3:
+				set(connectivity.Ready, nil)
+				return status.Error(codes.Unimplemented, "verif: scripted Unimplemented")
+			case 2:
+				set(connectivity.TransientFailure, errors.New("verif: scripted health stream error"))
+				break recv
+			}
+			tryCnt = 0
+			if ev == 1 {
+				set(connectivity.Ready, nil)
+			} else {
+				set(connectivity.TransientFailure, errors.New("verif: scripted NOT_SERVING"))
+			}
+		}
+	}
 }
 
 var vConnStateCur *vConnStateEnv
@@ -187,7 +269,7 @@ func (b *vConnStateLB) UpdateClientConnState(s balancer.ClientConnState) error {
 	if have || len(s.ResolverState.Addresses) == 0 {
 		return nil
 	}
-	sc, err := b.cc.NewSubConn(s.ResolverState.Addresses[:1], balancer.NewSubConnOptions{StateListener: b.onState})
+	sc, err := b.cc.NewSubConn(s.ResolverState.Addresses[:1], balancer.NewSubConnOptions{StateListener: b.onState, HealthCheckEnabled: b.env.health})
 	if err != nil {
 		return err
 	}
@@ -204,10 +286,10 @@ func (b *vConnStateLB) onState(s balancer.SubConnState) {
 		b.cc.UpdateState(balancer.State{ConnectivityState: s.ConnectivityState, Picker: base.NewErrPicker(errors.New("verif: no picks"))})
 	}
 }
-func (b *vConnStateLB) ResolverError(error)                          {}
+func (b *vConnStateLB) ResolverError(error)                                        {}
 func (b *vConnStateLB) UpdateSubConnState(balancer.SubConn, balancer.SubConnState) {}
-func (b *vConnStateLB) Close()                                       {}
-func (b *vConnStateLB) ExitIdle()                                    {}
+func (b *vConnStateLB) Close()                                                     {}
+func (b *vConnStateLB) ExitIdle()                                                  {}
 
 var vConnStateOnce sync.Once
 
@@ -223,9 +305,17 @@ func vConnStateWaiters(mu *sync.Mutex, n int32) {
 	}
 }
 
-func vConnStateExecB(ops [][]int64) ([][]int64, bool, []string) {
-	env := &vConnStateEnv{dialCh: make(chan bool), lis: &vConnStateLis{ch: make(chan net.Conn), done: make(chan struct{})}}
+func vConnStateExecB(health bool, ops [][]int64) ([][]int64, bool, []string) {
+	env := &vConnStateEnv{dialCh: make(chan bool), lis: &vConnStateLis{ch: make(chan net.Conn), done: make(chan struct{})},
+		health: health, hevCh: make(chan int64), hboCh: make(chan struct{})}
 	vConnStateCur = env
+	origHC := internal.HealthCheckFunc
+	defer func() { internal.HealthCheckFunc = origHC }()
+	sconf := `{"loadBalancingConfig":[{"verif_connstate":{}}]}`
+	if health {
+		internal.HealthCheckFunc = vConnStateHealthCheck
+		sconf = `{"loadBalancingConfig":[{"verif_connstate":{}}],"healthCheckConfig":{"serviceName":"verif"}}`
+	}
 	srv := NewServer()
 	go srv.Serve(env.lis)
 
@@ -267,7 +357,7 @@ func vConnStateExecB(ops [][]int64) ([][]int64, bool, []string) {
 		WithTransportCredentials(insecure.NewCredentials()),
 		WithResolvers(r),
 		WithContextDialer(dialer),
-		WithDefaultServiceConfig(`{"loadBalancingConfig":[{"verif_connstate":{}}]}`),
+		WithDefaultServiceConfig(sconf),
 		WithIdleTimeout(0),
 		WithConnectParams(ConnectParams{
 			Backoff:           backoff.Config{BaseDelay: time.Second, Multiplier: 1, Jitter: 0, MaxDelay: time.Second},
@@ -294,6 +384,8 @@ func vConnStateExecB(ops [][]int64) ([][]int64, bool, []string) {
 	addrID := 1
 	raced := false
 	sawReady, sawTF, sawShutdown := false, false, false
+	sawTFReady, sawGoAway := false, false
+	last := int64(0)
 	for _, op := range ops {
 		switch {
 		case len(op) == 1 && op[0] == 1:
@@ -344,6 +436,29 @@ func vConnStateExecB(ops [][]int64) ([][]int64, bool, []string) {
 			vConnStateWaiters(&ac.mu, 2) // the connect goroutine left its select and is queued too
 			ac.mu.Unlock()
 			<-done
+		case len(op) == 2 && op[0] == 10 && op[1] >= 0 && op[1] <= 3:
+			env.mu.Lock()
+			p := env.hph
+			env.mu.Unlock()
+			if p == 1 {
+				env.hevCh <- op[1]
+			}
+		case len(op) == 1 && op[0] == 11:
+			env.mu.Lock()
+			p := env.hph
+			env.mu.Unlock()
+			if p == 2 {
+				env.hboCh <- struct{}{}
+			}
+		case len(op) == 1 && op[0] == 12:
+			srv.mu.Lock()
+			for _, m := range srv.conns {
+				for st := range m {
+					st.Drain("verif")
+					sawGoAway = true
+				}
+			}
+			srv.mu.Unlock()
 		}
 		synctest.Wait()
 		env.mu.Lock()
@@ -355,6 +470,10 @@ func vConnStateExecB(ops [][]int64) ([][]int64, bool, []string) {
 		}
 		raced = false
 		for _, s := range d {
+			if last == 3 && s == 2 {
+				sawTFReady = true
+			}
+			last = s
 			switch s {
 			case 2:
 				sawReady = true
@@ -367,8 +486,11 @@ func vConnStateExecB(ops [][]int64) ([][]int64, bool, []string) {
 		ac.mu.Lock()
 		st := int64(ac.state)
 		ac.mu.Unlock()
+		env.mu.Lock()
+		hp := env.hph
+		env.mu.Unlock()
 		o := append([]int64{int64(len(d))}, d...)
-		o = append(o, st, int64(cc.GetState()))
+		o = append(o, st, int64(cc.GetState()), hp)
 		out = append(out, o)
 	}
 	cc.Close()
@@ -378,6 +500,15 @@ func vConnStateExecB(ops [][]int64) ([][]int64, bool, []string) {
 	var tags []string
 	if sawShutdown {
 		tags = append(tags, "shutdown-delivered")
+	}
+	if sawTFReady {
+		tags = append(tags, "tf-to-ready")
+	}
+	if sawGoAway {
+		tags = append(tags, "goaway")
+	}
+	if health {
+		tags = append(tags, "health")
 	}
 	return out, sawReady && sawTF, tags
 }
@@ -390,7 +521,10 @@ func vConnStateExec(cfg []int64, ops [][]int64) (obs [][]int64, nt bool, tags []
 			obs, nt, tags = vConnStateExecA(int(cfg[1]), ops)
 			tags = append(tags, "csm")
 		case len(cfg) == 1 && cfg[0] == 1:
-			obs, nt, tags = vConnStateExecB(ops)
+			obs, nt, tags = vConnStateExecB(false, ops)
+			tags = append(tags, "addrconn")
+		case len(cfg) == 2 && cfg[0] == 1 && (cfg[1] == 0 || cfg[1] == 1):
+			obs, nt, tags = vConnStateExecB(cfg[1] == 1, ops)
 			tags = append(tags, "addrconn")
 		}
 	})
@@ -429,6 +563,33 @@ func vConnStateGen(r *vRand, tier string, idx int) ([]int64, [][]int64) {
 		// part B scripted: the race op outside a back-off, and after a timer-ended back-off
 		ops = [][]int64{{1}, {2, 0}, {4}, {1}, {2, 0}, {9}, {7}, {4}, {9}, {6}}
 		return []int64{1}, ops
+	case idx == 9:
+		// the health-managed history of C30_health_managed_transitions_note (gRFC A17), replayed deterministically:
+		// health checking on; connected; NOT_SERVING => TRANSIENT_FAILURE; SERVING => READY
+		ops = [][]int64{{1}, {2, 1}, {10, 0}, {10, 1}}
+		return []int64{1, 1}, ops
+	case idx == 11:
+		// health checking scripted: SERVING, stream error after a response (TF, CONNECTING at
+		// once), error without a response (TF, checker back-off, CONNECTING), Unimplemented from
+		// TF (READY, checker gone), late events, GOAWAY, reconnect, NOT_SERVING then connection
+		// lost (TF -> IDLE), address update in health-TF / health-CONNECTING, shutdown
+		ops = [][]int64{{10, 1}, {1}, {2, 1}, {11}, {10, 1}, {10, 2}, {10, 2}, {4}, {7}, {11}, {10, 0}, {10, 3}, {10, 0}, {11},
+			{12}, {3}, {1}, {2, 1}, {10, 0}, {8, 0}, {3}, {1}, {2, 1}, {8, 0}, {2, 1}, {10, 1}, {8, 0}, {2, 1}, {10, 2}, {5}, {11}, {10, 1}}
+		return []int64{1, 1}, ops
+	case idx == 13:
+		// GOAWAY without health checking: READY -> IDLE once, nothing on the later close
+		ops = [][]int64{{12}, {1}, {2, 1}, {12}, {3}, {1}, {2, 1}, {12}, {12}, {1}, {2, 0}, {12}, {4}, {1}, {2, 1}, {5}, {12}}
+		return []int64{1, 0}, ops
+	case idx == 15:
+		// health checking: close / shutdown while the checker is in its back-off, waiting, or gone
+		ops = [][]int64{{1}, {2, 1}, {10, 2}, {6}, {11}, {10, 1}}
+		return []int64{1, 1}, ops
+	case idx == 17:
+		// health checking: Shutdown / connection loss while the checker waits on its stream: its
+		// context is cancelled, RecvMsg fails, and the TRANSIENT_FAILURE it then reports must be
+		// dropped by setConnectivityState (the transport is no longer current)
+		ops = [][]int64{{1}, {2, 1}, {10, 1}, {3}, {10, 0}, {1}, {2, 1}, {10, 1}, {5}, {10, 0}, {11}}
+		return []int64{1, 1}, ops
 	case idx%2 == 0:
 		nw := int64(1 + r.Intn(6))
 		n := 15 + r.Intn(40)
@@ -458,13 +619,40 @@ func vConnStateGen(r *vRand, tier string, idx int) ([]int64, [][]int64) {
 		return []int64{0, nw}, ops
 	default:
 		n := 10 + r.Intn(40)
+		health := r.Chance(55)
 		for i := 0; i < n; i++ {
+			if health && r.Chance(40) {
+				switch c := r.Intn(100); {
+				case c < 35:
+					ops = append(ops, []int64{10, 1})
+				case c < 60:
+					ops = append(ops, []int64{10, 0})
+				case c < 80:
+					ops = append(ops, []int64{10, 2})
+				case c < 85:
+					ops = append(ops, []int64{10, 3})
+				default:
+					ops = append(ops, []int64{11})
+				}
+				continue
+			}
+			if r.Chance(6) {
+				ops = append(ops, []int64{12})
+				continue
+			}
 			switch c := r.Intn(100); {
 			case c < 30:
 				ops = append(ops, []int64{1})
 			case c < 60:
-				ops = append(ops, []int64{2, int64(vB(r.Chance(55)))})
+				okp := 55
+				if health {
+					okp = 80 // the health events need a connection
+				}
+				ops = append(ops, []int64{2, int64(vB(r.Chance(okp)))})
 			case c < 72:
+				if health && r.Chance(50) {
+					break
+				}
 				ops = append(ops, []int64{3})
 			case c < 82:
 				ops = append(ops, []int64{4})
@@ -485,6 +673,12 @@ func vConnStateGen(r *vRand, tier string, idx int) ([]int64, [][]int64) {
 					ops = append(ops, []int64{9})
 				}
 			}
+		}
+		if health {
+			return []int64{1, 1}, ops
+		}
+		if r.Chance(50) {
+			return []int64{1, 0}, ops
 		}
 		return []int64{1}, ops
 	}
